@@ -202,7 +202,8 @@ def lstrip (s : Str) : Str := s.dropWhile isWs
 def rstrip (s : Str) : Str := (s.reverse.dropWhile isWs).reverse
 def strip (s : Str) : Str := rstrip (lstrip s)
 
-def maxStrDigits : Nat := 4300
+/- `maxStrDigits` (= 4300, `sys.get_int_max_str_digits()`) is the constant of `IO/Lex.lean`, exported by
+`GraphLex`. -/
 
 /-- optional sign removed -/
 def dropSign : Str → Str
